@@ -29,6 +29,8 @@ type c04Case struct {
 	Consumer  string    `json:"consumer"`        // streams | mux
 	Delay     []int     `json:"delay,omitempty"` // per received envelope (cyclic): number of yields (virtual) / 100 µs units (real)
 	Real      bool      `json:"real,omitempty"`
+	PC        []int     `json:"pc,omitempty"`    // noise next to the traffic: one client goroutine issues a ProcessCommand per entry and cancels it after that many yields; the server's consumer answers each
+	PCDup     bool      `json:"pcDup,omitempty"` // ... twice
 }
 
 type c04Side interface {
@@ -94,10 +96,31 @@ type c04Collector struct {
 	n       int
 	delay   []int
 	real    bool
+	replier map[string]c04Side // dir -> the side that receives in that direction (it answers the ProcessCommand noise)
+	pcDup   bool
 }
 
 func (c *c04Collector) got(dir string, kind string, e interface{}) {
 	id := envID(e)
+	if strings.HasPrefix(id, "pc-") {
+		// the ProcessCommand noise is not part of the judged traffic: a request is answered, a late response is ignored
+		if rq, ok := e.(*lime.RequestCommand); ok {
+			if side := c.replier[dir]; side != nil {
+				n := 1
+				if c.pcDup {
+					n = 2
+				}
+				for i := 0; i < n; i++ {
+					ctx, cancel := context.WithTimeout(context.Background(), time.Second)
+					resp := &lime.ResponseCommand{Status: lime.CommandStatusSuccess}
+					resp.ID, resp.Method = rq.ID, rq.Method
+					_ = side.SendResponseCommand(ctx, resp)
+					cancel()
+				}
+			}
+		}
+		return
+	}
 	c.mu.Lock()
 	c.recv[dir+"/"+kind] = append(c.recv[dir+"/"+kind], id)
 	if w, ok := c.want[id]; !ok {
@@ -230,6 +253,33 @@ func c04Drive(c *c04Case, cli, srv c04Side, col *c04Collector, obs *c04Obs, send
 	}
 	run("c2s", cli, c.C2S)
 	run("s2c", srv, c.S2C)
+	if len(c.PC) > 0 {
+		col.mu.Lock()
+		col.replier, col.pcDup = map[string]c04Side{"c2s": srv}, c.PCDup
+		col.mu.Unlock()
+		wg.Add(1)
+		go func() {
+			defer wg.Done()
+			for i, k := range c.PC {
+				ctx, cancel := context.WithCancel(context.Background())
+				go func() {
+					if col.real {
+						time.Sleep(time.Duration(k) * 20 * time.Microsecond)
+					} else {
+						for j := 0; j < k; j++ {
+							runtime.Gosched()
+						}
+					}
+					cancel()
+				}()
+				req := &lime.RequestCommand{}
+				req.ID, req.Method = fmt.Sprintf("pc-%d", i), lime.CommandMethodGet
+				req.SetURIString("/pc")
+				_, _ = cli.ProcessCommand(ctx, req)
+				cancel()
+			}
+		}()
+	}
 	wg.Wait()
 }
 
@@ -260,6 +310,9 @@ func judgeC04(c *c04Case, obs *c04Obs, o *Outcome) {
 	}
 	both := len(c.C2S) > 0 && len(c.S2C) > 0
 	o.NonTrivial = (len(kinds) >= 2 && senders >= 2) || both || c.ChanBuf == 0
+	if len(c.PC) > 0 {
+		o.Class("with-processcommand-noise")
+	}
 	if len(obs.SendErr) > 0 {
 		// while the session stays established every send must succeed
 		var first string
